@@ -120,9 +120,26 @@ def run(repo, R):
     if not (isinstance(st, ast.If) and st.test is sc):
         raise AnalysisError("ZERO", "screening call is not the test of an if statement", ker.where(sc))
     zr = [n for n in st.body if isinstance(n, ast.Return)]
-    if len(zr) != 1 or len(st.body) != 1:
-        raise AnalysisError("ZERO", "screened branch is not a single return", ker.where(st))
-    z = zr[0].value
+    local = {}
+    for b in st.body[:-1]:
+        if isinstance(b, ast.Assign) and len(b.targets) == 1 and isinstance(b.targets[0], ast.Name):
+            local[b.targets[0].id] = b.value
+        elif not (isinstance(b, ast.Expr) and isinstance(b.value, ast.Constant)):
+            raise AnalysisError("ZERO", "screened branch is not `[temporaries;] return np.zeros(shape)`", ker.where(b))
+    if len(zr) != 1 or st.body[-1] is not zr[0]:
+        raise AnalysisError("ZERO", "screened branch does not end in a single return", ker.where(st))
+
+    def res(n):
+        k = 0
+        while isinstance(n, ast.Name) and n.id in local and k < 5:
+            n = local[n.id]
+            k += 1
+        return n
+    z = res(zr[0].value)
+    if isinstance(z, ast.Call) and z.args:
+        z = ast.Call(func=z.func, args=[res(z.args[0])] + list(z.args[1:]), keywords=z.keywords)
+        ast.copy_location(z, zr[0].value)
+        ast.fix_missing_locations(z)
     okz = isinstance(z, ast.Call) and dotted(z.func) in ("np.zeros", "numpy.zeros") and z.args and isinstance(z.args[0], ast.Tuple) \
         and len(z.args[0].elts) == 4
     if not okz:
